@@ -195,6 +195,13 @@ def validate_events(ctx, sources, prop):
                     b["events"][i]["fed"] += delta
                 b["tid"] = len(bad2) + 1
                 bad2.append(b)
+        if any(e["ev"] == "CliPlan" for e in evs) and any(e["ev"] == "Split" for e in evs):
+            i = next((i for i, e in enumerate(evs) if e["ev"] == "PinParsed"), None)
+            if i is not None:           # a command-line run in which a parsed row never reaches the split
+                b = copy.deepcopy(t)
+                b["events"][i]["rows"] += 1
+                b["tid"] = len(bad2) + 1
+                bad2.append(b)
         i = next((i for i, e in enumerate(evs) if e["ev"] == "ColumnChunks" and len(e["features"]) >= 1), None)
         if i is not None:
             b = copy.deepcopy(t)
